@@ -86,9 +86,9 @@ class C17(Prop):
                 Layer("stack chains (<=6 push/pop steps, optional extra consumption rule)",
                       e(lambda: GI.stack_chain_cases(6, 4)), policies=["natural@full", "1@full"]),
                 Layer("marked pairs with unbalanced consumption rules", e(GI.marked_pair_cases), policies=["natural@full", "1@full"]),
-                Layer("IG(3 rules)/8 x regular", i(lambda: (c for k, c in enumerate(GI.ig_cases(3, 3)) if k % 8 == 0)),
+                Layer("IG(3 rules)/16 x regular", i(lambda: (c for k, c in enumerate(GI.ig_cases(3, 3)) if k % 16 == 0)),
                       rep=rep, policies=["natural"]),
-                Layer("IG(<=2 rules) x regular", i(lambda: GI.ig_cases(1, 2)), rep=None, policies=three)]
+                Layer("IG(<=2 rules) x regular", i(lambda: GI.ig_cases(1, 2)), rep=rep, policies=["natural", "1"])]
 
     def reference(self, case):
         g = RI.IG(RI_rules(case[1]))
